@@ -15,7 +15,7 @@ import (
 func moduleFiles(extraTypes []string) map[string]string {
 	files := map[string]string{"go.mod": "module " + modPath + "\n\ngo 1.23\n"}
 	for _, d := range layout {
-		files[d+"/x.go"] = fmt.Sprintf("package %s\n\nimport \"%s/tp\"\n\ntype A interface{ Fa(x tp.T0) }\ntype B interface{ Fb(x tp.T0) }\ntype C interface{ Fc(x tp.T0) }\n", path.Base(d), modPath)
+		files[d+"/x.go"] = fmt.Sprintf("package %s\n\nimport \"%s/tp\"\n\n// Item is a local named type: a mock outside the package has to qualify it\ntype Item struct{ N int }\n\ntype A interface{ Fa(x tp.T0, y Item) Item }\ntype B interface{ Fb(x tp.T0, y Item) Item }\ntype C interface{ Fc(x tp.T0, y Item) Item }\n", path.Base(d), modPath)
 	}
 	tp := "package tp\n\ntype T0 struct{}\ntype T1 struct{}\n"
 	for _, t := range extraTypes {
